@@ -5,10 +5,14 @@ Line protocol driver for C11 (Float instance of the `_s2grid.py` / `_so3grid.py`
                                     its bit pattern
   output line:  ok <tokens…>  |  error:ValueError | error:AssertionError | error:TypeError | error:RuntimeError
                 | error:bad-op
+`to`/`from` modes: `auto` = the model's forward with its branch condition, `dense` = the einsum path,
+`all` = the buffer `shb` [m,b,i], then `auto`, then `dense` (one table for all three).
 Floats are never printed as text: exact bit patterns travel both ways, the comparison (with tolerance) happens in
 python.  Tensors are flattened row-major in the index order of the real buffers.
-The model's index functions are tabulated into arrays here (`tab1/2/3`) — this only caches values of the model
-functions, it does not change them.
+The model's index functions are tabulated into arrays here (`mkTab1/2/3`) between the stages of the model
+(`expandStd` → `shbToWith`/`shbFromWith` → `toCoeff` → `toAlphaStep`, resp. `fromAlphaStep` → `fromCoeff`) — this
+only caches values of the model functions (`shbTo = shbToWith (expandStd lmax)`, `toForwardWith = toAlphaStep ∘
+toCoeff`, … hold by definition in the model), it does not change them.
 -/
 open E3nnVerif E3nnVerif.S2Grid
 
@@ -21,15 +25,23 @@ def ofBits (n : Nat) : Float := Float.ofBits (UInt64.ofNat n)
 def optInt (s : String) : Option (Option Int) :=
   if s == "N" then some none else (s.toInt?).map some
 
-def tab1 (n : Nat) (f : Nat → Float) : Nat → Float :=
-  let t := Array.ofFn (n := n) fun i => f i.val
-  fun i => t.getD i 0.0
-def tab2 (n0 n1 : Nat) (f : Nat → Nat → Float) : Nat → Nat → Float :=
-  let t := Array.ofFn (n := n0 * n1) fun k => f (k.val / n1) (k.val % n1)
-  fun i j => if j < n1 then t.getD (i * n1 + j) 0.0 else 0.0
-def tab3 (n0 n1 n2 : Nat) (f : Nat → Nat → Nat → Float) : Nat → Nat → Nat → Float :=
-  let t := Array.ofFn (n := n0 * n1 * n2) fun k => f (k.val / (n1 * n2)) (k.val / n2 % n1) (k.val % n2)
-  fun i j k => if j < n1 ∧ k < n2 then t.getD ((i * n1 + j) * n2 + k) 0.0 else 0.0
+/-- a strict table of values of an index function (NOT a closure: the array is built once, when `mkTab*` is
+called with all its arguments) -/
+structure Tab where
+  a : Array Float
+  n1 : Nat
+  n2 : Nat
+
+@[noinline] def mkTab1 (n : Nat) (f : Nat → Float) : Tab :=
+  ⟨Array.ofFn (n := n) fun i => f i.val, 1, 1⟩
+@[noinline] def mkTab2 (n0 n1 : Nat) (f : Nat → Nat → Float) : Tab :=
+  ⟨Array.ofFn (n := n0 * n1) fun k => f (k.val / n1) (k.val % n1), n1, 1⟩
+@[noinline] def mkTab3 (n0 n1 n2 : Nat) (f : Nat → Nat → Nat → Float) : Tab :=
+  ⟨Array.ofFn (n := n0 * n1 * n2) fun k => f (k.val / (n1 * n2)) (k.val / n2 % n1) (k.val % n2), n1, n2⟩
+def Tab.get1 (t : Tab) (i : Nat) : Float := t.a.getD i 0.0
+def Tab.get2 (t : Tab) (i j : Nat) : Float := if j < t.n1 then t.a.getD (i * t.n1 + j) 0.0 else 0.0
+def Tab.get3 (t : Tab) (i j k : Nat) : Float :=
+  if j < t.n1 ∧ k < t.n2 then t.a.getD ((i * t.n1 + j) * t.n2 + k) 0.0 else 0.0
 
 /-- view of a slice of the float arguments as an index function -/
 def slice (a : Array Float) (off : Nat) : Nat → Float := fun i => a.getD (off + i) 0.0
@@ -94,35 +106,62 @@ def handleS2 (op mode : String) (lmax N M nvec : Nat) (a : Array Float) : String
   let n := slice a 0
   let P : Nat → Nat → Float := fun b i => if i < dim then a.getD (lmax + 1 + b * dim + i) 0.0 else 0.0
   let off := lmax + 1 + N * dim
+  let E := mkTab3 (lmax + 1) (2 * lmax + 1) dim (expandStd lmax)
   match op with
   | "to" =>
     if a.size != off + nvec * dim then "error:bad-op" else
-    let shb := tab3 (2 * lmax + 1) N dim (shbTo lmax n P)
-    let outs := (List.range nvec).map fun z =>
-      let x := slice a (off + z * dim)
-      if mode == "dense" then Except.ok (flat2 N M (toForwardDenseWith lmax M shb x))
-      else match toForwardWith lmax M shb x with
-        | .ok g => Except.ok (flat2 N M g)
-        | .error e => Except.error e
-    match outs.mapM id with
-    | .ok arrs => okF (arrs.foldl (· ++ ·) #[])
+    let shbT := mkTab3 (2 * lmax + 1) N dim (shbToWith E.get3 lmax n P)
+    let run (dense : Bool) : Except Err (Array Float) :=
+      ((List.range nvec).mapM fun z =>
+        let x := slice a (off + z * dim)
+        let y := mkTab2 N (2 * lmax + 1) (toCoeff lmax shbT.get3 x)
+        if dense then Except.ok (flat2 N M fun b al => toAlphaDense lmax M (y.get2 b) al)
+        else match toAlphaStep lmax M y.get2 with
+          | .ok g => Except.ok (flat2 N M g)
+          | .error e => Except.error e).map fun (arrs : List (Array Float)) => arrs.foldl (· ++ ·) #[]
+    -- mode `all`: the buffer shb, then the branch-selected path, then the einsum path, sharing one table
+    let res : Except Err (Array Float) :=
+      if mode == "dense" then run true
+      else if mode == "all" then
+        match run false, run true with
+        | .ok r1, .ok r2 => .ok (shbT.a ++ r1 ++ r2)
+        | .error e, _ => .error e
+        | _, .error e => .error e
+      else run false
+    match res with
+    | .ok r => okF r
     | .error e => errS e
   | "from" =>
     if a.size != off + nvec * N * M then "error:bad-op" else
-    let shb := tab3 (2 * lmax + 1) N dim (shbFrom lmax N M n P)
-    let outs := (List.range nvec).map fun z =>
-      let g : Nat → Nat → Float := fun b al => if al < M then a.getD (off + (z * N + b) * M + al) 0.0 else 0.0
-      if mode == "dense" then Except.ok (Array.ofFn (n := dim) fun i => fromForwardDenseWith lmax N M shb g i.val)
-      else match fromForwardWith lmax N M shb g with
-        | .ok F => Except.ok (Array.ofFn (n := dim) fun i => F i.val)
-        | .error e => Except.error e
-    match outs.mapM id with
-    | .ok arrs => okF (arrs.foldl (· ++ ·) #[])
+    let qw := mkTab1 N (qwFrom N M)
+    let shbT := mkTab3 (2 * lmax + 1) N dim (shbFromWith E.get3 qw.get1 lmax n P)
+    let run (dense : Bool) : Except Err (Array Float) :=
+      ((List.range nvec).mapM fun z =>
+        let g : Nat → Nat → Float := fun b al => if al < M then a.getD (off + (z * N + b) * M + al) 0.0 else 0.0
+        let y? : Except Err (Nat → Nat → Float) :=
+          if dense then Except.ok fun b => fromAlphaDense lmax M (g b) else fromAlphaStep lmax M g
+        match y? with
+        | .ok y =>
+          let yT := mkTab2 N (2 * lmax + 1) y
+          Except.ok (Array.ofFn (n := dim) fun i => fromCoeff lmax N shbT.get3 yT.get2 i.val)
+        | .error e => Except.error e).map fun (arrs : List (Array Float)) => arrs.foldl (· ++ ·) #[]
+    let res : Except Err (Array Float) :=
+      if mode == "dense" then run true
+      else if mode == "all" then
+        match run false, run true with
+        | .ok r1, .ok r2 => .ok (shbT.a ++ r1 ++ r2)
+        | .error e, _ => .error e
+        | _, .error e => .error e
+      else run false
+    match res with
+    | .ok r => okF r
     | .error e => errS e
   | "shb" =>
     if a.size != off then "error:bad-op" else
-    if mode == "to" then okF (flat3 (2 * lmax + 1) N dim (shbTo lmax n P))
-    else okF (flat3 (2 * lmax + 1) N dim (shbFrom lmax N M n P))
+    if mode == "to" then okF (flat3 (2 * lmax + 1) N dim (shbToWith E.get3 lmax n P))
+    else
+      let qw := mkTab1 N (qwFrom N M)
+      okF (flat3 (2 * lmax + 1) N dim (shbFromWith E.get3 qw.get1 lmax n P))
   | _ => "error:bad-op"
 
 def handleSO3 (op : String) (dim nb na nvec : Nat) (a : Array Float) : String :=
@@ -170,6 +209,11 @@ def handle (toks : List String) : String :=
     match l.toNat?, floats rest with
     | some l, some al => okF (flat2 al.size (2 * l + 1) fun a m => shaEntry l (al.getD a 0.0) m)
     | _, _ => "error:bad-op"
+  | ["legendre1", N] =>
+    -- the explicit Legendre factor for lmax ≤ 1, flattened [b, i], i < 4
+    match N.toNat? with
+    | some N => okF (flat2 N 4 fun j i => legendre1 N j i)
+    | none => "error:bad-op"
   | ["shabuf", l, M] =>
     match l.toNat?, M.toNat? with
     | some l, some M => okF (flat2 M (2 * l + 1) fun a m => sha l M a m)
